@@ -154,7 +154,11 @@ impl<'a, C: Crypto> CaseResponder<'a, C> {
     /// Consumes the exchange: on return the CASE handshake has either
     /// completed, been rejected, or aborted, and the exchange is dropped.
     pub async fn handle(&mut self, mut exchange: Exchange<'_>) -> Result<(), Error> {
-        let mut session = ReservedSession::reserve(exchange.matter(), self.crypto).await?;
+        let Some(mut session) =
+            crate::sc::reserve_session_or_busy(&mut exchange, self.crypto).await?
+        else {
+            return Ok(());
+        };
 
         // Attempt session resumption first. If the peer's Sigma1 carries
         // both `resumptionID` and `initiatorResumeMIC`, we have a cached
